@@ -215,7 +215,8 @@ var nestGens = map[string][]nestGen{
 			return []byte(xmlHead + `<rdf:Description rdf:about="http://e/s"><e:p rdf:parseType="Collection">` + rep(`<rdf:Description rdf:about="http://e/i"/>`, n) + `</e:p>` + rep(`<rdf:li>x</rdf:li>`, n) + `</rdf:Description></rdf:RDF>`)
 		}},
 		{"xmlbase-chain", func(n int) []byte {
-			return []byte(xmlHead + rep(`<rdf:Description xml:base="a/" rdf:about="x"><e:p>`, n) + `<rdf:Description rdf:ID="i"/>` + rep(`</e:p></rdf:Description>`, n) + `</rdf:RDF>`)
+			// absolute bases: a relative xml:base would make every IRI grow with the depth (quadratic *output*)
+			return []byte(xmlHead + rep(`<rdf:Description xml:base="http://b/a/" rdf:about="x"><e:p>`, n) + `<rdf:Description rdf:ID="i"/>` + rep(`</e:p></rdf:Description>`, n) + `</rdf:RDF>`)
 		}},
 	},
 	"ttl": {
